@@ -375,6 +375,11 @@ def expected(rel, q):
 def run_impl(case):
     schema = SHAPES[case['shape']]
     model = mc.Model(schema)
+    # unique identifiers over the plain attributes: the library records but never enforces them, so states
+    # with duplicate identifier values are reachable and queries must still return every match
+    for c in schema['classes']:
+        model.m.define_unique_identifier(c['name'], 'I7', 'P')
+        model.m.define_unique_identifier(c['name'], 'I8', 'P', 'Q')
     for op in case['ops']:
         model.apply(op)
     for (j, p, q) in case['attrs']:
